@@ -40,6 +40,9 @@ def _standin(rep, tier, seed, only_search=False):
         return A, B, C
     for it in range(n):
         na, nb, nc = rng.choice(sizes), rng.choice(sizes), rng.choice(sizes[:5])
+        if it in (1, 2, 3):
+            # "any size": a few triples beyond the block sizes libraries like to work in (128, 256), in every tier
+            na, nb = [(150, 90), (129, 140), (200, 257)][it - 1]
         lat = rng.random() < 0.3
         A, B, C = dc.rand_dgm(rng, na, lattice=lat), dc.rand_dgm(rng, nb, lattice=lat), dc.rand_dgm(rng, nc, lattice=lat)
         if rng.random() < 0.3 and na:
@@ -88,6 +91,36 @@ def _standin(rep, tier, seed, only_search=False):
                         return
         if len(samples) < 2 and na + nb <= 8:
             samples.append({"dgm1": A, "dgm2": B})
+    # the same births and the same deaths, paired differently (as multisets of coordinates the two diagrams agree): the distance is
+    # positive, and adding a diagonal point or passing through a third diagram must not change that
+    for it in range(16 if tier == "quick" else 300):
+        k = rng.randint(2, 8)
+        lat = rng.random() < 0.4
+        P = dc.rand_dgm(rng, k, lattice=lat)
+        bs, dsd = sorted(p[0] for p in P), sorted(p[1] for p in P)
+        A = [[b, d] for b, d in zip(bs, dsd)]
+        sh = dsd[:]
+        for _t in range(30):
+            rng.shuffle(sh)
+            if all(d >= b for b, d in zip(bs, sh)) and sh != dsd:
+                break
+        else:
+            continue
+        B = [[b, d] for b, d in zip(bs, sh)]
+        for kind, fn in (("inf", "bottleneck"), ("2", "wasserstein")):
+            d0 = _d(kind, A, B)
+            m = rng.uniform(0, 5)
+            d1 = _d(kind, A + [[m, m]], B)
+            d2 = _d(kind, A, B + [[m, m]])
+            tol = 64 * 2.3e-16 * 8 * (2 * k + 3) * 8
+            evals += 3
+            distinct.add((fn, "re-paired", k))
+            if abs(d1 - d0) > tol or abs(d2 - d0) > tol:
+                rep.violation("%s law 'diagonal-point' fails on diagrams with equal births and equal deaths paired differently: d(A,B)=%r, with a diagonal point added %r / %r (%s, %s)" % (fn, d0, d1, d2, A, B),
+                              "%s:law:diagonal-point" % fn, {"input": {"dgm1": A, "dgm2": B, "diagonal_point": m}, "observed": [d0, d1, d2], "law": "diagonal-point", "fn": fn})
+                if only_search:
+                    return
+                break
     # all scales and shifts: dyadic diagrams moved far along the diagonal (2^20 .. 2^40) or rescaled by powers of two (2^-40 .. 2^30).
     # Every coordinate, difference and half-difference stays exactly representable, so the bottleneck distance must transform
     # exactly and the Wasserstein distance up to the rounding of its square roots and sums - no tolerance may depend on the magnitude.
